@@ -52,6 +52,8 @@ type Program struct {
 	Consts  []string            // extra top-level declarations (Value sources)
 	Decls   []Decl
 	Files   [][]int // decl indices per file (file 0 holds types and providers)
+	// ExtraImports are import spec lines for file 0, e.g. `ttemplate "text/template"`.
+	ExtraImports []string
 	// ReplayTypes: emit types that carry the identity of the term that
 	// produced them (replay instrumentation only).
 	ReplayTypes bool
@@ -182,6 +184,9 @@ func (p *Program) Emit(bodyOf func(pr Prov) string, extraImports []string) map[s
 	}
 	for _, im := range extraImports {
 		fmt.Fprintf(&sb, "\t%q\n", im)
+	}
+	for _, im := range p.ExtraImports {
+		fmt.Fprintf(&sb, "\t%s\n", im)
 	}
 	sb.WriteString("\t\"github.com/mazrean/kessoku\"\n)\n\n")
 	for _, t := range p.Types {
